@@ -47,7 +47,7 @@ Lemma accumulate_spec fixed f k file l0 : (1 <= k)%nat ->
     acc_post file pos base (accumulate fixed fuel f k file l0 pos temp re app).
 Proof.
   intros Hk. induction fuel as [|fuel IH]; intros pos temp re app base Hc Hpre; [exact I|].
-  cbn [accumulate].
+  cbn [accumulate]. unfold m_is_finished, m_reported, m_lines_after, m_oneline_incomplete, m_oneline_kept, m_size_after, m_header_line, m_plus_line in *.
   destruct (firstn k (skipn pos file)) as [|x r] eqn:Eraw.
   - (* nothing left to read *)
     assert (HX : skipn pos file = []) by (apply (firstn_nil_inv k); assumption).
@@ -117,7 +117,7 @@ Lemma read_chunk_spec fixed f m k file st D : (1 <= k)%nat -> Inv m file st D ->
   | _ => True
   end.
 Proof.
-  intros Hk [HI Hseek]. unfold read_chunk.
+  intros Hk [HI Hseek]. unfold read_chunk. unfold m_is_finished, m_reported, m_lines_after, m_oneline_incomplete, m_oneline_kept, m_size_after, m_header_line, m_plus_line in *.
   set (temp0 := match r_prepend st with [] => [] | p => [p] end).
   assert (Ht0 : concat temp0 = r_prepend st ++ []).
   { unfold temp0. destruct (r_prepend st); [reflexivity|]. cbn [concat]. reflexivity. }
